@@ -99,13 +99,15 @@ def bases(rng, tier):
 def base_view(scn, run, base_devs, until_time):
     """what the base part saw: observations, adapter notifications and record refreshes, up
     to simulation time `until_time`"""
-    obs = {d: [o for o in v if o[0] <= until_time] for d, v in model.observations(run["trace"]).items() if d in base_devs}
+    # strictly before the last instant of the base run: that instant may consist of several ticks (callbacks for the
+    # current time) of which the base run, which stops after a fixed NUMBER of ticks, has seen only some
+    obs = {d: [o for o in v if o[0] < until_time] for d, v in model.observations(run["trace"]).items() if d in base_devs}
     notes = {}
     cur_t = {}
     for e in run["trace"].events:
         if e["k"] == "update":
             cur_t[e["comp"]] = e["time"]
-        elif e["k"] in ("after_update", "record-set") and e["comp"] in base_devs and cur_t.get(e["comp"], 0) <= until_time:
+        elif e["k"] in ("after_update", "record-set") and e["comp"] in base_devs and cur_t.get(e["comp"], 0) < until_time:
             notes.setdefault((e["k"], e["comp"], e.get("adapter")), []).append(e.get("value", 1) if e["k"] == "record-set" else 1)
     return obs, notes
 
